@@ -17,14 +17,18 @@ Definition moving_block_b (r0 : ref) (b : block) : bool :=
 Definition moving_scope_b (r0 : ref) (h : list block) : bool :=
   wf_b h && lib_ok_b (LExcl r0) h && negb (ri r0 =? 0) && forallb (moving_block_b r0) h.
 
-(* exclusive starting LIB, no injected handler failure; everything else universally quantified: the
-   first streamable block, retention (kept final blocks), all-blocks-trigger, the Irreversible and
-   Stalled filter bits *)
+(* exclusive starting LIB; everything else universally quantified: the handler oracle (never failing,
+   or failing at any call), the first streamable block, retention (kept final blocks),
+   all-blocks-trigger, the Irreversible and Stalled filter bits.  Besides c01_statement: no call
+   panics or exhausts the fuel of the model's walks; with a handler that never fails every call
+   returns normally and every block of the history is processed *)
 Definition c01_moving_lib_statement : Prop :=
   forall cfg r0 h,
-    c_fail_at cfg = None -> c_incl cfg = false ->
+    c_incl cfg = false ->
     f_new (c_filter cfg) = true -> f_undo (c_filter cfg) = true ->
     moving_scope_b r0 h = true ->
     c01_statement cfg (LExcl r0) h /\
-    Forall (fun x => snd x = ROk) (fk_run cfg (fs_init (LExcl r0)) h) /\
-    length (fk_run cfg (fs_init (LExcl r0)) h) = length h.
+    Forall (fun x => snd x = ROk \/ snd x = RHandlerErr) (fk_run cfg (fs_init (LExcl r0)) h) /\
+    (c_fail_at cfg = None ->
+     Forall (fun x => snd x = ROk) (fk_run cfg (fs_init (LExcl r0)) h) /\
+     length (fk_run cfg (fs_init (LExcl r0)) h) = length h).
